@@ -16,6 +16,9 @@ CONFIGS = {
     "rom-short": dict(rom=0x20000),
     "card-absent": dict(card_present=False),
     "card-readonly": dict(card_writable=False),
+    # smaller cards loaded through the real load_memory_card: the window behind the card is not memory
+    "card-32k": dict(card_size=32768),
+    "card-8k-readonly": dict(card_size=8192, card_writable=False),
     "ram-overlay": dict(ram=(0x80000, 0x1000)),
     "rom-overlay": dict(romov=(0x30000, 0x800)),
     "rom+ram+romov": dict(rom=0x40000, ram=(0x80000, 0x1000), romov=(0x30000, 0x800)),
@@ -55,6 +58,9 @@ def build(eng, PM, cfg):
     mem = PM.PCE500Memory()
     mem.external_memory = ArrBuf("ext", 1024 * 1024)
     mem._card_data = ArrBuf("card", 65536)
+    if cfg.get("card_size"):
+        mem.load_memory_card(bytes(16), cfg["card_size"], writable=cfg.get("card_writable", True))
+        mem._card_data = ArrBuf("card", cfg["card_size"])
     if "card_present" in cfg:
         mem._card_present = cfg["card_present"]
     if "card_writable" in cfg:
@@ -122,6 +128,9 @@ def writable(cfg, c):
         ro.append(in_rom)
     if cfg.get("card_present") is False or cfg.get("card_writable") is False:
         ro.append(z3.And(z3.UGE(c, 0x40000), z3.ULE(c, 0x4FFFF)))
+    elif cfg.get("card_size"):
+        # the slot window behind the end of a small card holds no memory (reads are constant, stores are dropped)
+        ro.append(z3.And(z3.UGE(c, 0x40000 + cfg["card_size"]), z3.ULE(c, 0x4FFFF)))
     return z3.Not(z3.Or(ro)) if ro else z3.BoolVal(True)
 
 
